@@ -343,6 +343,25 @@ func c18exec(c *h.Ctx, cs *h.Case) {
 	lastPrivate := ""
 	var expect []string // the server ops the text must decode to
 	var outs []string
+	// registry history: what every text read as last time, and which services were (un)registered since
+	lastRead := map[string]string{}
+	lastReadAt := map[string]int{}
+	var changed []string
+	validated := map[string]bool{}
+	registryOracle := func(kind, first string) {
+		key := kind + text
+		if prev, ok := lastRead[key]; ok && prev != first {
+			relevant := false
+			for _, nme := range changed[lastReadAt[key]:] {
+				relevant = relevant || strings.Contains(text, "Services."+nme+"]")
+			}
+			if !relevant {
+				cs.Fail("registry-change-disagree", fmt.Sprintf("the same text reads differently after services it does not mention were registered / unregistered (%v):\n%s\n%s",
+					changed[lastReadAt[key]:], prev, first))
+			}
+		}
+		lastRead[key], lastReadAt[key] = first, len(changed)
+	}
 	newFile := func(suffix string) string {
 		return filepath.Join(dir, fmt.Sprintf("c18-%d-%d%s", os.Getpid(), atomic.AddInt64(&c18fileSeq, 1), suffix))
 	}
@@ -358,6 +377,38 @@ func c18exec(c *h.Ctx, cs *h.Case) {
 			if op == pre[1] {
 				obs = "ok"
 			}
+		case len(tk) == 4 && tk[1] == "regadd":
+			nme, ok := c20unhex(tk[2])
+			if !ok || nme == "" {
+				break
+			}
+			fn := func(c *onet.Context) (onet.Service, error) { return nil, fmt.Errorf("verification stub") }
+			var err error
+			if tk[3] == "-" {
+				_, err = onet.RegisterNewService(nme, fn)
+			} else {
+				su, ok := c20unhex(tk[3])
+				suite, e2 := suites.Find(su)
+				if !ok || e2 != nil || suite.String() != su {
+					break
+				}
+				_, err = onet.RegisterNewServiceWithSuite(nme, suite, fn)
+			}
+			obs = "ok"
+			if err != nil {
+				obs = "err"
+			}
+			changed = append(changed, nme)
+		case len(tk) == 3 && tk[1] == "regdel":
+			nme, ok := c20unhex(tk[2])
+			if !ok || nme == "" {
+				break
+			}
+			obs = "ok"
+			if err := onet.UnregisterService(nme); err != nil {
+				obs = "err"
+			}
+			changed = append(changed, nme)
 		case len(tk) == 3 && tk[1] == "text":
 			if b, ok := c20unhex(tk[2]); ok {
 				text, expect, obs, haveText = b, nil, "ok", true
@@ -367,14 +418,18 @@ func c18exec(c *h.Ctx, cs *h.Case) {
 			obs = "ok"
 		case len(tk) == 4 && tk[1] == "readgroup":
 			n, _ := strconv.Atoi(tk[2])
-			ops, ok := c18groupOps(text)
-			if !ok || strings.Join(ops[1:], "\n") != strings.Join(expect, "\n") || n < 1 {
-				obs = "bad-text" // the ops do not describe what the TOML library decodes from the text
-				break
+			if !validated[text] {
+				ops, ok := c18groupOps(text)
+				if !ok || strings.Join(ops[1:], "\n") != strings.Join(expect, "\n") || n < 1 {
+					obs = "bad-text" // the ops do not describe what the TOML library decodes from the text
+					break
+				}
+				validated[text] = true
 			}
 			file := newFile(".group.toml")
 			c18ensure(file, text)
 			first, _, note := c18readGroup(file)
+			registryOracle("g", first)
 			if note != "" {
 				cs.Fail("roster-id-not-from-keys", note)
 			}
@@ -460,14 +515,18 @@ func c18exec(c *h.Ctx, cs *h.Case) {
 			outs = append(outs, "writeread:"+c18class(obs))
 		case len(tk) == 13 && tk[1] == "private":
 			n, _ := strconv.Atoi(tk[11])
-			want, ok := c18privateOp(text, n, tk[12] == "1")
-			if !ok || want != op || n < 1 {
-				obs = "bad-text"
-				break
+			if !validated["p"+text] {
+				want, ok := c18privateOp(text, n, tk[12] == "1")
+				if !ok || want != op || n < 1 {
+					obs = "bad-text"
+					break
+				}
+				validated["p"+text] = true
 			}
 			file := newFile(".private.toml")
 			c18ensure(file, text)
 			first, hc := c18readPrivate(file)
+			registryOracle("p", first)
 			for i := 1; i < n; i++ {
 				c18ensure(file, text)
 				if d, _ := c18readPrivate(file); d != first {
@@ -1004,6 +1063,100 @@ func c18generate(c *h.Ctx, yield func(*h.Case)) {
 		btxt, _ := g.groupText(0, "Ed25519")
 		g.forceN = 0
 		emitGroup("corpus-big-group", btxt, 30, true, "Ed25519")
+	}
+	// ---- registry histories: services the text does not mention are registered / unregistered between
+	// two reads of the same text (group and private); the text's own services were registered in one
+	// batch with them, with suites that differ from their neighbours'
+	churnSeq := 0
+	churn := func(private bool) {
+		churnSeq++
+		const k = 12
+		batchSuites := []string{"Ed25519", "P256", "", "bn256.G1"}
+		var names, sus []string
+		for i := 0; i < k; i++ {
+			names = append(names, fmt.Sprintf("c18t%dx%d", churnSeq, i))
+			sus = append(sus, batchSuites[(i+churnSeq)%len(batchSuites)])
+		}
+		reg := func(i int) string {
+			if sus[i] == "" {
+				return fmt.Sprintf("c18 regadd %s -", c18hex(names[i]))
+			}
+			return fmt.Sprintf("c18 regadd %s %s", c18hex(names[i]), c18hex(sus[i]))
+		}
+		// the services exist while the ops are generated (whether a key is a point of a service's suite is
+		// asked of the registry), and are taken away again before the case is handed out
+		stub := func(c *onet.Context) (onet.Service, error) { return nil, fmt.Errorf("verification stub") }
+		for i := range names {
+			if sus[i] == "" {
+				onet.RegisterNewService(names[i], stub)
+			} else {
+				onet.RegisterNewServiceWithSuite(names[i], suites.MustFind(sus[i]), stub)
+			}
+		}
+		defer func() {
+			for _, nme := range names {
+				onet.UnregisterService(nme)
+			}
+		}()
+		victim := 2 + g.r.Intn(5) // unregistered in the middle of the batch: not the first, not the last
+		var used []int
+		for i := victim + 1; i < k; i++ {
+			if sus[i] != "" {
+				used = append(used, i)
+			}
+		}
+		cs := &h.Case{Class: "registry-history:group"}
+		if private {
+			cs.Class = "registry-history:private"
+		}
+		cs.Ops = append(cs.Ops, pre...)
+		for i := range names {
+			cs.Ops = append(cs.Ops, reg(i))
+		}
+		var readOp string
+		if !private {
+			k0 := g.key("Ed25519")
+			txt := fmt.Sprintf("[[servers]]\n  Address = \"tcp://127.0.0.1:7000\"\n  Suite = \"Ed25519\"\n  Public = \"%s\"\n  Description = \"churn\"\n", k0.pub)
+			for _, i := range used {
+				txt += fmt.Sprintf("  [servers.Services.%s]\n    Public = \"%s\"\n    Suite = \"%s\"\n", names[i], g.key(sus[i]).pub, sus[i])
+			}
+			txt += fmt.Sprintf("  [servers.Services.c18svcEd]\n    Public = \"%s\"\n    Suite = \"Ed25519\"\n", g.key("Ed25519").pub)
+			ops, ok := c18groupOps(txt)
+			if !ok {
+				return
+			}
+			cs.Ops = append(cs.Ops, ops...)
+			readOp = "c18 readgroup 2 0"
+		} else {
+			kp := g.key("Ed25519")
+			txt := fmt.Sprintf("Suite = \"Ed25519\"\nPublic = \"%s\"\nPrivate = \"%s\"\nAddress = \"tls://127.0.0.1:7770\"\nDescription = \"churn\"\n", kp.pub, kp.priv)
+			for _, i := range used {
+				ks := g.key(sus[i])
+				txt += fmt.Sprintf("[Services.%s]\n  Public = \"%s\"\n  Private = \"%s\"\n  Suite = \"%s\"\n", names[i], ks.pub, ks.priv, sus[i])
+			}
+			op, ok := c18privateOp(txt, 2, false)
+			if !ok {
+				return
+			}
+			cs.Ops = append(cs.Ops, "c18 text "+c18hex(txt))
+			readOp = op
+		}
+		extra := fmt.Sprintf("c18t%dxnew", churnSeq)
+		cs.Ops = append(cs.Ops, readOp,
+			"c18 regdel "+c18hex(names[victim]), readOp,
+			fmt.Sprintf("c18 regadd %s %s", c18hex(extra), c18hex("P256")), readOp,
+			"c18 regdel "+c18hex(names[1]), "c18 regdel "+c18hex(names[0]), readOp,
+			reg(victim), readOp)
+		// leave the registry as it was
+		for i := range names {
+			cs.Ops = append(cs.Ops, "c18 regdel "+c18hex(names[i]))
+		}
+		cs.Ops = append(cs.Ops, "c18 regdel "+c18hex(extra), "c18 regdel "+c18hex(extra))
+		c.Count("kind=registry-history")
+		yield(cs)
+	}
+	for i := 0; i < c.Pick(24, 120); i++ {
+		churn(i%2 == 1)
 	}
 	maxSvc := c.Pick(4, 6)
 	total := c.Pick(9000, 60000)
